@@ -128,7 +128,10 @@ def gen_case(rng, tier):
             # the file that exposes the environment block of the process, read as text
             ops.append({'op': 'proc-environ', 'href': rng.choice(['file:///proc/self/environ', 'file:///proc/self/environ',
                                                                    'file:///proc/thread-self/environ', 'file:///proc/1/environ',
-                                                                   'file:///proc/self/task/1/environ', 'file:///proc/self/../self/environ']),
+                                                                   'file:///proc/self/task/1/environ', 'file:///proc/self/../self/environ',
+                                                                   # the same file behind symbolic links
+                                                                   'file:///proc/self/root/proc/self/environ',
+                                                                   'file:///proc/thread-self/root/proc/1/environ']),
                         'enc': rng.choice(['utf-16-le', 'utf-16-be', 'utf-16-le', 'utf-16', 'utf-8', 'latin1', 'utf-32-le']),
                         'fn': rng.choice(['unparsed-text', 'unparsed-text', 'unparsed-text-lines', 'unparsed-text-available']),
                         'allow': rng.random() < 0.2})
